@@ -22,6 +22,11 @@ var checks = map[string]func(job *Job, r *Report){
 	"C05": C05,
 	"C17": C17,
 	"C11": C11,
+	"C16": C16,
+	"C14": C14,
+	"C09": C09,
+	"C15": C15,
+	"C10": C10,
 	"C12": C12,
 }
 
@@ -38,6 +43,13 @@ func Main() {
 	}
 	if job.NShards == 0 {
 		job.NShards = 1
+	}
+	if job.Check == "C10-hostile-child" {
+		os.Exit(HostileChild(job.Shard, job.NShards, job.Out))
+	}
+	if job.Check == "C10-hostile-input" {
+		fmt.Printf("%x\n", hostileInput(job.Shard))
+		os.Exit(0)
 	}
 	if job.Replay != "" {
 		os.Exit(Replay(&job))
